@@ -33,7 +33,7 @@ TEXTS = ["Intro", "a b", "a  b", " lead", "trail ", "tab\there", "é ü", "x", "
 
 def outline_numbers(levels, depth):
     """independent outline counter -> list of (index in levels, number string)"""
-    c = [0] * 12
+    c = [0] * 20
     out = []
     for i, L in enumerate(levels):
         if L > depth:
@@ -42,7 +42,7 @@ def outline_numbers(levels, depth):
             if c[j] == 0:
                 c[j] = 1
         c[L] += 1
-        for j in range(L + 1, 12):
+        for j in range(L + 1, 20):
             c[j] = 0
         out.append((i, ".".join(str(c[j]) for j in range(1, L + 1)) + "."))
     return out
@@ -215,24 +215,24 @@ def replay(case, ctx):
 
 def run_shard(ctx):
     text = st.sampled_from(TEXTS)
-    heading = st.fixed_dictionaries({"k": st.just("h"), "level": st.one_of(st.integers(1, 4), st.integers(1, 10)), "text": text,
+    heading = st.fixed_dictionaries({"k": st.just("h"), "level": st.one_of(st.integers(1, 4), st.integers(1, 10), st.integers(1, 10), st.integers(9, 13)), "text": text,
                                      "span": st.one_of(st.none(), st.none(), st.sampled_from(["bold", " sp ", "x  y"])),
                                      "after": st.one_of(st.none(), st.sampled_from([" end", "  z"]))})
     para = st.fixed_dictionaries({"k": st.just("p"), "text": text})
     step = st.one_of(
         st.fixed_dictionaries({"k": st.sampled_from(["fill", "fill", "fill-arg", "fill-nostyle"])}),
         st.fixed_dictionaries({"k": st.just("edit"), "i": st.integers(0, 30), "t": st.integers(0, 30)}),
-        st.fixed_dictionaries({"k": st.just("add"), "level": st.integers(1, 10), "t": st.integers(0, 30)}),
+        st.fixed_dictionaries({"k": st.just("add"), "level": st.one_of(st.integers(1, 10), st.integers(1, 13)), "t": st.integers(0, 30)}),
         st.fixed_dictionaries({"k": st.just("remove"), "i": st.integers(0, 30)}),
-        st.fixed_dictionaries({"k": st.just("level"), "i": st.integers(0, 30), "level": st.integers(1, 10)}),
-        st.fixed_dictionaries({"k": st.just("outline"), "level": st.integers(0, 10)}),
+        st.fixed_dictionaries({"k": st.just("level"), "i": st.integers(0, 30), "level": st.one_of(st.integers(1, 10), st.integers(1, 13))}),
+        st.fixed_dictionaries({"k": st.just("outline"), "level": st.one_of(st.integers(0, 10), st.integers(0, 14))}),
         st.fixed_dictionaries({"k": st.just("title"), "t": st.integers(0, 30)}),
         st.fixed_dictionaries({"k": st.just("reload"), "pretty": st.booleans()}),
         st.fixed_dictionaries({"k": st.just("reload"), "pretty": st.just(True)}),
     )
     cases = st.fixed_dictionaries({
         "items": st.lists(st.one_of(heading, heading, para), max_size=25),
-        "toc_pos": st.integers(0, 30), "outline": st.integers(0, 10),
+        "toc_pos": st.integers(0, 30), "outline": st.one_of(st.integers(0, 10), st.integers(0, 10), st.integers(9, 14)),
         "title": st.one_of(st.none(), st.just(""), st.sampled_from(["Table of Contents", "Sommaire  général"])),
         "steps": st.lists(step, min_size=1, max_size=6)})
 
